@@ -22,6 +22,7 @@ type serveOpt struct {
 	CType   string ` + "`json:\"ctype\"`" + `   // strict: ContentType for wildcard responses
 	HErr    bool   ` + "`json:\"herr\"`" + `    // strict: handler returns an error
 	Foreign bool   ` + "`json:\"foreign\"`" + ` // strict: handler returns a response object of another operation
+	Warm    int    ` + "`json:\"warm\"`" + `    // the same request is served this many times on the same server first (state left behind shows in the observed one)
 }
 
 type callRec struct {
@@ -713,6 +714,12 @@ func serve(req wireReq, opt serveOpt) (out map[string]interface{}) {
 	if out != nil {
 		return out
 	}
+	for i := 0; i < opt.Warm; i++ {
+		h.ServeHTTP(httptest.NewRecorder(), toHTTP(req))
+	}
+	if opt.Warm > 0 {
+		resetRec()
+	}
 	w := httptest.NewRecorder()
 	h.ServeHTTP(w, toHTTP(req))
 	return obsOf(w.Code, w.Result().Header, w.Body.String())
@@ -794,6 +801,12 @@ func serve(req wireReq, opt serveOpt) (out map[string]interface{}) {
 		def := e.HTTPErrorHandler
 		e.HTTPErrorHandler = func(err error, c echo.Context) { recordErr(err); def(err, c) }
 	}
+	for i := 0; i < opt.Warm; i++ {
+		e.ServeHTTP(httptest.NewRecorder(), toHTTP(req))
+	}
+	if opt.Warm > 0 {
+		resetRec()
+	}
 	w := httptest.NewRecorder()
 	e.ServeHTTP(w, toHTTP(req))
 	return obsOf(w.Code, w.Result().Header, w.Body.String())
@@ -857,6 +870,12 @@ func serve(req wireReq, opt serveOpt) (out map[string]interface{}) {
 	if out != nil {
 		return out
 	}
+	for i := 0; i < opt.Warm; i++ {
+		r.ServeHTTP(httptest.NewRecorder(), toHTTP(req))
+	}
+	if opt.Warm > 0 {
+		resetRec()
+	}
 	w := httptest.NewRecorder()
 	r.ServeHTTP(w, toHTTP(req))
 	return obsOf(w.Code, w.Result().Header, w.Body.String())
@@ -913,6 +932,14 @@ func serve(req wireReq, opt serveOpt) (out map[string]interface{}) {
 	}()
 	if out != nil {
 		return out
+	}
+	for i := 0; i < opt.Warm; i++ {
+		if wr, werr := app.Test(toHTTP(req), -1); werr == nil {
+			wr.Body.Close()
+		}
+	}
+	if opt.Warm > 0 {
+		resetRec()
 	}
 	hr := toHTTP(req)
 	resp, err := app.Test(hr, -1)
@@ -975,6 +1002,12 @@ func serve(req wireReq, opt serveOpt) (out map[string]interface{}) {
 	}()
 	if out != nil {
 		return out
+	}
+	for i := 0; i < opt.Warm; i++ {
+		app.ServeHTTP(httptest.NewRecorder(), toHTTP(req))
+	}
+	if opt.Warm > 0 {
+		resetRec()
 	}
 	w := httptest.NewRecorder()
 	app.ServeHTTP(w, toHTTP(req))
